@@ -5,6 +5,16 @@ VERIF = os.path.dirname(os.path.dirname(os.path.abspath(__file__)))
 ALL = ["C%02d" % i for i in range(1, 21)]
 
 CHECKS = {
+ "C01": dict(cat="model_checking", ref="DESIGN.md §3 C01",
+   text="Every compressed stream the real library produces over a covering sample of {level, flush, wrapper, hist_bits, table, level_buf size, simulated CPU level, one-shot/streaming} x an input corpus (incl. >64 KiB) is recorded call by call and judged by TLC against "
+        "the RFC 1951/1950/1952 specification in spec/Deflate.tla + Wrappers.tla + Checksums.tla: the stream must be complete, decode to exactly the input, end at its last byte and carry the spec-computed trailer. ISA-L's own inflate is never consulted; compressed bytes are never compared with an expectation.",
+   note="Trusted: TLC's evaluation of the decoder spec (itself validated against zlib/gzip-made streams); harness h_igzip.c records faithfully; inputs are sampled (VERIF_SEED).",
+   technique="trace validation: recorded API traces of the real compressor judged by an executable TLA+ RFC 1951/1950/1952 decoder"),
+ "C07": dict(cat="model_checking", ref="DESIGN.md §3 C07",
+   text="Call histories (every single input split point, (in,out) chunk-size pairs incl. 1-byte buffers, random schedules with flush-mode changes and late end_of_stream, refill-before-drain, three chunk-memory disciplines) are replayed into isal_deflate and isal_inflate; "
+        "each recorded trace is validated by TLC: per-call contract rules (accounting, progress, END/FINISH absorbing), compression output must decode (TLA+ decoder) to the concatenated input, decompression must deliver exactly the spec's decode of the same stream with the same final state/position/checksum in one-shot and streaming form.",
+   note="Trusted: TLC's evaluation of the specs; harness; schedules sampled from VERIF_SEED plus systematic families.",
+   technique="trace validation of recorded streaming call histories against the TLA+ stream contract and decoder"),
  "C03": dict(cat="exploration", ref="DESIGN.md §3 C03",
    text="Expected parity for each (coefficients, sources) vector is computed by TLC from spec/EC.tla (GF(2^8) matrix product over the field of GF256.tla) and replayed into the real "
         "library: every encode wrapper (base, sse, avx, avx2, avx512, avx512_gfni, avx2_gfni, dispatched) and every gf_{1..6}vect_dot_prod_<isa> kernel, for every len 0..N, "
